@@ -422,7 +422,76 @@ def run(tier, seed, scale=1.0):
     ev.merge(e2)
     viols += v2
     errors += err2
+    if tier == "thorough" and not viols and not errors:
+        fuzz_campaign(ev, viols, errors, seed, runs=int(40000 * scale))
     return ev, viols, errors
+
+
+def fuzz_campaign(ev, viols, errors, seed, procs=16, runs=40000):
+    """Coverage-guided tier: `procs` independent atheris/libFuzzer campaigns (vf/fuzz/c05_fuzz.py), each `runs` executions
+    from an empty corpus, seeded from VERIF_SEED.  Skipped (and said so in the evidence) when atheris cannot be imported
+    or installed from the offline wheelhouse."""
+    import importlib.util
+    import shutil
+    import tempfile
+
+    deps = os.path.join(common.VERIF, ".deps")
+    if deps not in sys.path:
+        sys.path.append(deps)
+    if importlib.util.find_spec("atheris") is None:
+        subprocess.run([sys.executable, "-m", "pip", "install", "-q", "--no-index", "--find-links", "/opt/veriftools/wheels", "--target", deps, "atheris"],
+                       stdout=subprocess.DEVNULL, stderr=subprocess.DEVNULL)
+        importlib.invalidate_caches()
+    if importlib.util.find_spec("atheris") is None:
+        ev.extra["atheris"] = "skipped: atheris is not importable and could not be installed from /opt/veriftools/wheels"
+        return
+    base = tempfile.mkdtemp(prefix="c05fuzz-", dir=os.environ.get("VERIF_TMP") or None)
+    env = dict(os.environ)
+    env["PYTHONPATH"] = os.pathsep.join([common.VERIF, deps])
+    env["PYTHONHASHSEED"] = "0"
+    jobs = []
+    try:
+        for i in range(procs):
+            d = os.path.join(base, f"p{i}")
+            os.makedirs(os.path.join(d, "corpus"))
+            cmd = [sys.executable, "-W", "ignore", "-m", "vf.fuzz.c05_fuzz", os.path.join(d, "stats.json"), f"-runs={runs}", f"-seed={seed * 100 + i + 1}",
+                   f"-artifact_prefix={d}/", "-max_len=256", os.path.join(d, "corpus")]
+            jobs.append((d, subprocess.Popen(cmd, cwd=common.VERIF, env=env, stdout=subprocess.PIPE, stderr=subprocess.STDOUT)))
+        tot = {"campaigns": 0, "execs": 0, "valid_inputs": 0, "distinct_values": 0, "nontrivial": 0, "coverage_edges_max": 0}
+        for d, pr in jobs:
+            out = pr.communicate()[0].decode("utf-8", "replace")
+            st = {}
+            try:
+                with open(os.path.join(d, "stats.json")) as f:
+                    st = json.load(f)
+            except (OSError, ValueError):
+                pass
+            if st.get("violation"):
+                with open(st["violation"]["replay"]) as f:
+                    body = json.load(f)
+                viols.append(Violation("[coverage-guided] " + st["violation"]["msg"], body["case"]))
+                continue
+            if pr.returncode != 0 or not st:
+                errors.append("atheris campaign failed:\n" + out[-1500:])
+                continue
+            tot["campaigns"] += 1
+            tot["execs"] += st["execs"]
+            tot["valid_inputs"] += st["valid"]
+            tot["distinct_values"] += st["distinct"]
+            tot["nontrivial"] += st["nontrivial"]
+            for ln in out.splitlines():
+                if "DONE" in ln and "cov:" in ln:
+                    tot["coverage_edges_max"] = max(tot["coverage_edges_max"], int(ln.split("cov:")[1].split()[0]))
+            for k, n in st["features"].items():
+                ev.features[k] = ev.features.get(k, 0) + n
+            ev.evaluations += st["distinct"]
+            ev.nontrivial |= set(st.get("nt_keys", []))
+            for j in st["samples"][:1]:
+                if len(ev.samples) < 8:
+                    ev.samples.append({"coverage_guided": j})
+        ev.extra["atheris"] = tot
+    finally:
+        shutil.rmtree(base, ignore_errors=True)
 
 
 def _global_buckets(tier):
